@@ -14,7 +14,7 @@ EXTENDS RespLife, Json, TLCExt
 VARIABLE hist
 
 NoFixes == {}
-AllFixes == {"shutdown", "chunkresume", "atomicrelease", "closeunder"}
+AllFixes == {"shutdown", "chunkresume", "atomicrelease", "closeunder", "releaseunread"}
 
 \* ---- sequential
 Snap(o, t) == [op |-> o.op[t], res |-> o.res[t], errk |-> o.errk[t], own |-> o.own, hfp |-> o.hfp, sock |-> o.sock,
@@ -38,7 +38,7 @@ EmitSeq == AllDone => PrintT(<<"SEQ", ToJson([fr |-> sh.fr, sv |-> sh.sv, mode |
 
 \* ---- two threads
 ProgsA == {<<"read">>, <<"readn", "readn", "readn">>}
-DOps == {"shutdown", "close", "release"}
+DOps == {"shutdown", "close", "release", "drain"}
 ProgsB == {<<x>> : x \in DOps} \cup {<<x, y>> : x \in DOps, y \in DOps}
 ProgsB1 == {<<x>> : x \in DOps}
 ConcScenario(x) == TRUE
